@@ -72,12 +72,25 @@ Lemma pick_any p g l :
 Proof. destruct p; [apply pick_first | apply pick_only | apply pick_all]. Qed.
 
 (* ------------------------------------------------------------------ merge_nested *)
+Lemma tok_value_retag g t : tok_value (retag_tok g t) = tok_value t.
+Proof. destruct t; reflexivity. Qed.
+Lemma map_value_retag g l : map tok_value (map (retag_tok g) l) = map tok_value l.
+Proof. rewrite map_map. apply map_ext. intros t. apply tok_value_retag. Qed.
+
+Lemma merge_outputs_multi inputs : 2 <= length inputs ->
+  merge_outputs inputs = map (retag_tok (merge_tag inputs)) inputs.
+Proof.
+  intros H. unfold merge_outputs. destruct inputs as [|a [|b r]]; simpl in H; try lia.
+  destruct a; reflexivity.
+Qed.
+
 Lemma merge_nested_multi inputs :
   length inputs <> 1 ->
   tok_value (sf_list_merge false inputs) = merge_nested (map tok_value inputs).
 Proof.
   intros H. destruct inputs as [|a [|b r]]; [reflexivity| simpl in H; lia |].
-  destruct a; reflexivity.
+  unfold sf_list_merge. rewrite merge_outputs_multi by (simpl; lia).
+  cbn [tok_value]. rewrite map_value_retag. reflexivity.
 Qed.
 
 Lemma merge_nested_single_scalar g v :
@@ -90,8 +103,8 @@ Lemma link_multi lm pv inputs :
   option_map tok_value (sf_link lm pv inputs) = apply_pick pv (merge_sources lm (map tok_value inputs)).
 Proof.
   intros Hlen Hlm.
-  assert (Hm : sf_list_merge false inputs = LTok (get_tag_s (map tok_tag inputs)) inputs).
-  { destruct inputs as [|a [|b r]]; simpl in Hlen; try lia. destruct a; reflexivity. }
+  assert (Hm : sf_list_merge false inputs = LTok (merge_tag inputs) (map (retag_tok (merge_tag inputs)) inputs)).
+  { unfold sf_list_merge. rewrite merge_outputs_multi by exact Hlen. reflexivity. }
   assert (Hs : merge_sources lm (map tok_value inputs) = VArr (map tok_value inputs)).
   { destruct inputs as [|a [|b r]]; simpl in Hlen; try lia.
     destruct lm as [[|]|]; try reflexivity. congruence. }
@@ -99,9 +112,12 @@ Proof.
   replace (match lm with Some MergeFlattened => true | _ => false end) with false
     by (destruct lm as [[|]|]; try reflexivity; congruence).
   rewrite Hm. destruct pv as [p|]; simpl apply_pick.
-  - apply pick_any.
-  - destruct lm as [[|]|]; try congruence; try reflexivity.
-    destruct inputs as [|a [|b r]]; simpl in Hlen; try lia. reflexivity.
+  - rewrite pick_any, map_value_retag. reflexivity.
+  - destruct lm as [[|]|]; try congruence.
+    + cbn [option_map tok_value]. rewrite map_value_retag. reflexivity.
+    + destruct inputs as [|a [|b r]]; simpl in Hlen; try lia.
+      cbn [map sf_list_to_element option_map tok_value]. f_equal. f_equal.
+      rewrite !tok_value_retag. f_equal. f_equal. apply map_value_retag.
 Qed.
 
 (* ------------------------------------------------------------------ merge_flattened *)
@@ -179,13 +195,33 @@ Proof.
     + rewrite flatten_scalars by assumption. reflexivity.
 Qed.
 
-(* merge_flattened of sources of type T / T[] (T not an array), each list in key order *)
+(* after the combinator's re-tagging all top-level keys are equal *)
+Lemma keys_sorted_retag g : forall l, keys_sorted (map (retag_tok g) l) = true.
+Proof.
+  induction l as [|a l IH]; [reflexivity|]. destruct l as [|b l]; [reflexivity|].
+  cbn [map keys_sorted] in *. rewrite IH. rewrite andb_true_r.
+  assert (E : forall x, tok_key (retag_tok g x) = tok_key (Tok g VNull)) by (intros [? ?|? ?]; reflexivity).
+  rewrite (E a), (E b). apply N.leb_refl.
+Qed.
+Lemma shallow_retag g t : shallow_tok (retag_tok g t) = shallow_tok t.
+Proof. destruct t as [? v|? l]; [destruct v; reflexivity|reflexivity]. Qed.
+Lemma inner_sorted_retag g t : inner_sorted (retag_tok g t) = inner_sorted t.
+Proof. destruct t; reflexivity. Qed.
+Lemma forallb_map_ext {A} (f g : A -> bool) (h : A -> A) l : (forall x, f (h x) = g x) -> forallb f (map h l) = forallb g l.
+Proof. intros H. induction l; simpl; [reflexivity|]. rewrite H, IHl. reflexivity. Qed.
+Lemma forest_depth_retag g l : forest_depth (map (retag_tok g) l) = forest_depth l.
+Proof.
+  unfold forest_depth. induction l as [|a l IH]; simpl; [reflexivity|]. rewrite IH.
+  destruct a; reflexivity.
+Qed.
+
+(* merge_flattened of sources of type T / T[] (T not an array), each inner list in key order
+   (the top-level list is re-tagged with one tag by the combinator, so it is always in key order) *)
 Lemma merge_flattened_shallow inputs :
-  forallb shallow_tok inputs = true ->
-  keys_sorted inputs = true -> forallb inner_sorted inputs = true ->
+  forallb shallow_tok inputs = true -> forallb inner_sorted inputs = true ->
   tok_value (sf_list_merge true inputs) = merge_flattened (map tok_value inputs).
 Proof.
-  intros Hs Hk Hi.
+  intros Hs Hi.
   destruct inputs as [|a [|b r]].
   - reflexivity.
   - (* a single source *)
@@ -193,26 +229,37 @@ Proof.
     + simpl in Hs. rewrite andb_true_r in Hs.
       cbn. unfold merge_flattened. simpl. destruct v; try reflexivity. discriminate.
     + simpl in Hs, Hi. rewrite andb_true_r in Hs, Hi.
-      unfold sf_list_merge, sf_flatten. cbn [tok_value].
+      unfold sf_list_merge, sf_flatten, merge_outputs. cbn [map retag_tok tok_value].
       rewrite flatten_scalars by assumption.
       unfold merge_flattened. simpl. rewrite app_nil_r. reflexivity.
-  - (* several sources: the top-level list is in key order, so sorting keeps it *)
-    unfold sf_list_merge.
-    replace (match a :: b :: r with
-             | [LTok g l] => (l, g)
-             | [Tok g v] => ([Tok g v], g)
-             | _ => (a :: b :: r, get_tag_s (map tok_tag (a :: b :: r)))
-             end) with (a :: b :: r, get_tag_s (map tok_tag (a :: b :: r)))
-      by (destruct a; reflexivity).
+  - (* several sources *)
+    unfold sf_list_merge. rewrite merge_outputs_multi by (simpl; lia).
+    set (g := merge_tag (a :: b :: r)). set (rts := map (retag_tok g) (a :: b :: r)).
     cbn [tok_value]. unfold merge_flattened. f_equal.
     unfold sf_flatten.
-    change (flatten_fuel (S (forest_depth (a :: b :: r))) (a :: b :: r)) with
+    change (flatten_fuel (S (forest_depth rts)) rts) with
       (flat_map (fun t => match t with
-                          | LTok _ l' => flatten_fuel (forest_depth (a :: b :: r)) l'
+                          | LTok _ l' => flatten_fuel (forest_depth rts) l'
                           | Tok _ _ => [t]
-                          end) (sort_toks (a :: b :: r))).
-    rewrite sort_sorted by exact Hk.
-    apply flatten_shallow; try assumption. lia.
+                          end) (sort_toks rts)).
+    rewrite sort_sorted by apply keys_sorted_retag.
+    rewrite <- (map_value_retag g (a :: b :: r)). fold rts.
+    apply flatten_shallow.
+    + unfold rts. rewrite (forallb_map_ext shallow_tok shallow_tok); [exact Hs|apply shallow_retag].
+    + unfold rts. rewrite (forallb_map_ext inner_sorted inner_sorted); [exact Hi|apply inner_sorted_retag].
+    + lia.
+Qed.
+
+(* the same on the faithful (partial) operator: numeric tags => no ValueError, and the value is the spec's *)
+Lemma merge_flattened_shallow_opt inputs :
+  numeric_forest (merge_outputs inputs) = true ->
+  forallb shallow_tok inputs = true -> forallb inner_sorted inputs = true ->
+  exists out, sf_list_merge_opt true inputs = Some out /\
+              tok_value out = merge_flattened (map tok_value inputs).
+Proof.
+  intros Hn Hs Hi. exists (sf_list_merge true inputs). split.
+  - unfold sf_list_merge_opt. rewrite Hn. reflexivity.
+  - apply merge_flattened_shallow; assumption.
 Qed.
 
 (* ------------------------------------------------------------------ empty scatter *)
